@@ -122,6 +122,26 @@ def explore(res, rng, n):
     res.samples += [{'history': h, 'scale_2^-s': s, 'resolution_on_grid': r} for h, s, r in cases[2:5]]
 
 
+def finer_than_atol(res):
+    """resolution finer than 10^-atol: the index keys are strings with atol decimals and collide (recorded design limitation)"""
+    core.import_impl()
+    from ffpack import lsm
+    h = [0.0, 3e-9, 1e-9, 4e-9, 0.0]
+    for name in cyc.NAMES:
+        if not cyc.valid_for(name, h):
+            continue
+        res.evaluations += 1
+        res.stat('resolution_finer_than_atol')
+        try:
+            M, keys = getattr(lsm, cyc.MATRIX_API[name])(list(h), 1e-9)
+        except Exception as e:  # noqa
+            res.failures.append({'signature': f'C07:{name}:raises:fine-resolution', 'clause': 'valid history raised ' + repr(e)[:80], 'api': cyc.MATRIX_API[name], 'input': h})
+            continue
+        if len(set(keys)) != len(keys):
+            res.failures.append({'signature': 'C07:keys-printed-with-atol-decimals:resolution-finer-than-atol', 'clause': 'fail:keys (index keys not distinct)',
+                                 'api': cyc.MATRIX_API[name], 'input': h, 'resolution': 1e-9, 'impl_output': keys})
+
+
 def run(tier, seed):
     res = core.Result(PID, tier, seed)
     res.rule = ('random histories x resolutions (grid values incl. non powers of two) x seven matrix functions; non-trivial = '
@@ -129,6 +149,7 @@ def run(tier, seed):
     core.prove(res, PID, MODULES, clean=(tier == 'thorough'))
     n = 700 if tier == 'quick' else 15000
     explore(res, random.Random(seed), n)
+    finer_than_atol(res)
     if (res.proof_problems or res.disagreements) and not res.failures:
         explore(res, random.Random(seed + 7919), 4 * n)
     res.disagreements_checked = res.traces
